@@ -21,12 +21,12 @@ func init() { register("C07", checkC07) }
 // Reviewed escapes the order lattice cannot decide, keyed by range › what escapes, one line of
 // reason each. Anything else escaping from the same loop is still reported.
 var c07Reviewed = map[string]string{
-	"scanCtx.FindModel › range s.app.Models › first-match":                                        "first match on (package path, type name), which identifies at most one declaration in the index: the result does not depend on the visiting order",
-	"GenerateDefinition › range specDoc.Spec().Definitions › modelNames":                          "collects the names of all definitions; the following loop generates one file per name (paths injective in the name), each generation independent of the others",
+	"scanCtx.FindModel › range s.app.Models › first-match":                                           "first match on (package path, type name), which identifies at most one declaration in the index: the result does not depend on the visiting order",
+	"GenerateDefinition › range specDoc.Spec().Definitions › modelNames":                             "collects the names of all definitions; the following loop generates one file per name (paths injective in the name), each generation independent of the others",
 	"schemaGenContext.buildProperties › range sg.Schema.Properties › sg.MergeResult→sg.Dependencies": "GenSchema.Dependencies → GenDefinition.DependsOn is read by no template (it shows only in the --dump-data debug dump)",
-	"Repository.addDependencies › range deps › accumulate":                                        "AddParseTree registers each dependency under its own name in the template's name space: a keyed insertion, order-insensitive",
-	"Repository.DumpTemplates › range t.templates › write fmt.Fprintf":                            "debug helper that prints the template inventory; not called by any command and not an output of the property",
-	"Repository.DumpTemplates › range t.templates › write fmt.Fprintln":                           "debug helper (see above)",
+	"Repository.addDependencies › range deps › accumulate":                                           "AddParseTree registers each dependency under its own name in the template's name space: a keyed insertion, order-insensitive",
+	"Repository.DumpTemplates › range t.templates › write fmt.Fprintf":                               "debug helper that prints the template inventory; not called by any command and not an output of the property",
+	"Repository.DumpTemplates › range t.templates › write fmt.Fprintln":                              "debug helper (see above)",
 }
 
 var c07ReviewedCallSites = map[string]string{
@@ -166,19 +166,19 @@ func checkDirectTaintedUses(c *Ctx, oa *goan.OrderAnalysis, pkgs []*packages.Pac
 
 // audited os.Getenv sites: function › variable
 var c07Env = map[string]string{
-	"GoLangOpts › GOPATH":                      "GOPATH resolution of the target directory: an input of path resolution",
-	"(package level) › DEBUG":                  "debug logging switch",
-	"(package level) › SWAGGER_DEBUG":          "debug logging switch",
-	"init › DEBUG":                             "debug logging switch",
-	"init › SWAGGER_DEBUG":                     "debug logging switch",
+	"GoLangOpts › GOPATH":                          "GOPATH resolution of the target directory: an input of path resolution",
+	"(package level) › DEBUG":                      "debug logging switch",
+	"(package level) › SWAGGER_DEBUG":              "debug logging switch",
+	"init › DEBUG":                                 "debug logging switch",
+	"init › SWAGGER_DEBUG":                         "debug logging switch",
 	"(package level) › SWAGGER_GENERATE_EXTENSION": "documented input of generate spec",
-	"addExtension › SWAGGER_GENERATE_EXTENSION": "documented input of generate spec",
-	"configureOptsFromConfig › DEBUG":          "debug logging switch",
-	"configureOptsFromConfig › SWAGGER_DEBUG":  "debug logging switch",
-	"readConfig › DEBUG":                       "debug logging switch",
-	"readConfig › SWAGGER_DEBUG":               "debug logging switch",
-	"setDebug › DEBUG":                         "debug logging switch",
-	"setDebug › SWAGGER_DEBUG":                 "debug logging switch",
+	"addExtension › SWAGGER_GENERATE_EXTENSION":    "documented input of generate spec",
+	"configureOptsFromConfig › DEBUG":              "debug logging switch",
+	"configureOptsFromConfig › SWAGGER_DEBUG":      "debug logging switch",
+	"readConfig › DEBUG":                           "debug logging switch",
+	"readConfig › SWAGGER_DEBUG":                   "debug logging switch",
+	"setDebug › DEBUG":                             "debug logging switch",
+	"setDebug › SWAGGER_DEBUG":                     "debug logging switch",
 }
 
 func checkAmbient(c *Ctx, pkgs []*packages.Package) {
